@@ -22,7 +22,7 @@ FLOORS = {"quick": {"int_delivered": 5000, "int_refused": 1000, "int_discarded":
                        "int_at_target_due": 10000, "int_multi_same_instant": 6000, "spec_compared": 20000,
                        "source_checks": 400000}}
 PROFILE = {"weights": {"timeout": 5, "zero": 1, "wait": 3, "succeed": 2, "fail": 0.5, "spawn": 1.5, "join": 2,
-                       "interrupt": 6, "cb": 0.3, "cond": 1.5},
+                       "interrupt": 6, "cb": 0.3, "cond": 1.5, "cbint": 1.2, "chain": 0.2},
            "min_top": 2, "max_top": 6, "max_child_scripts": 2, "min_ev": 1, "max_ev": 3, "p_exact": 0.85,
            "p_raise": 0.05, "p_catch": 0.8, "int_policy": [3, 4, 3, 1, 1]}
 KEYS = ("int_issued", "int_delivered", "int_refused", "int_discarded", "int_at_target_due",
@@ -42,6 +42,7 @@ def one_case(ctx, prog):
     mon = kern.Monitor(agenda=True, waiters=True, interrupts=True)
     r = kern.run_on(K, prog, mon=mon)
     viol = list(mon.finish())
+    kern.count_extras(ctx, r)
     # a process's first tape entry is never an Interrupt
     first = {}
     for e in r.tape:
